@@ -159,7 +159,14 @@ fn get_text_edit_range_in_string(
         end_offset -= 1;
     }
 
+    if start_offset > end_offset {
+        return None;
+    }
     let new_text_range = TextRange::new(start_offset.into(), end_offset.into());
+    // a text edit has to contain the cursor: behind the closing quote there is nothing to complete
+    if !new_text_range.contains_inclusive(builder.position_offset) {
+        return None;
+    }
 
     builder
         .semantic_model
